@@ -20,7 +20,7 @@ import (
 // names the innermost function and the fault line; then one line per active
 // call, innermost first, naming the calling function and the line of the call.
 
-var c20kinds = []string{"call statement", "call inside an expression", "method call", "call from a for body", "call from an if branch", "call from a switch case", "call through a function-typed variable", "self-recursion x3 then call", "call after a function literal in the same function"}
+var c20kinds = []string{"call statement", "call inside an expression", "method call", "call from a for body", "call from an if branch", "call from a switch case", "call through a function-typed variable", "self-recursion x3 then call", "call after a function literal in the same function", "method call written over two lines (line break after the dot)"}
 
 type c20fault struct {
 	name  string
@@ -53,6 +53,11 @@ var c20faults = []c20fault{
 	{"index on the middle line of three", []string{"s := []int{1}", "i := 5", "a := 1"}, "a +\n\t\ts[i] +\n\t\t1", "", 1},
 	{"division on the second line of three", []string{"a, b := 1, 0"}, "(a +\n\t\t1) / (b *\n\t\t2)", "", 1},
 	{"modulo by a global, line break after the operator", []string{"a := 1"}, "a %\n\t\tgz", "", 0},
+	// stores written over two lines: the failing line is where the target starts (as the Go toolchain reports)
+	{"slice store, line break inside the brackets", []string{"s := []int{1}"}, "", "s[\n\t\t4] = 1", 0},
+	{"nil map store, line break inside the brackets", []string{"var m map[string]int"}, "", "m[\n\t\t\"k\"] = 1", 0},
+	{"field store through nil reference, line break after the dot", []string{"var t *T"}, "", "t.\n\t\tn = 1", 0},
+	{"slice element +=, line break inside the brackets", []string{"s := []int{1}", "i := 3"}, "", "s[\n\t\ti] += 1", 0},
 }
 
 var c20hosts = []string{"x := %E", "x = %E", "x += %E", "if %E > 0 {", "for %E > 0 {", "return %E", "x = id(%E)", "after fusable statements", "x = 1 +\n\t\t%E"}
@@ -120,13 +125,13 @@ func c20render(p c20prog) (src string, entry string, want []c20frame) {
 	// function i (0..n): i < n calls i+1 using frame kind word[i]; function n holds the fault.
 	// how function i is declared depends on how it is called: word[i-1]
 	name := func(i int) string {
-		if i > 0 && word[i-1] == 2 {
+		if i > 0 && (word[i-1] == 2 || word[i-1] == 9) {
 			return fmt.Sprintf("M%d", i)
 		}
 		return fmt.Sprintf("F%d", i)
 	}
 	qual := func(i int) string {
-		if i > 0 && word[i-1] == 2 {
+		if i > 0 && (word[i-1] == 2 || word[i-1] == 9) {
 			return "c.T." + name(i)
 		}
 		return "c." + name(i)
@@ -137,7 +142,7 @@ func c20render(p c20prog) (src string, entry string, want []c20frame) {
 	for i := 0; i <= n; i++ {
 		rec := i > 0 && word[i-1] == 7
 		switch {
-		case i > 0 && word[i-1] == 2:
+		case i > 0 && (word[i-1] == 2 || word[i-1] == 9):
 			emit(fmt.Sprintf("func (t *T) %s() int {", name(i)))
 		case rec:
 			emit(fmt.Sprintf("func %s(n int) int {", name(i)))
@@ -183,6 +188,10 @@ func c20render(p c20prog) (src string, entry string, want []c20frame) {
 			case 6:
 				emit("\tf := " + name(i+1))
 				callLines[i] = emit("\tx = f()")
+			case 9:
+				emit("\tt := &T{n: 1}")
+				emit("\tx = t.")
+				callLines[i] = emit("\t\t" + callee) // the call is where its parenthesis is
 			case 8:
 				emit("\tg := func(a int) int {")
 				emit("\t\treturn a + 1")
@@ -203,7 +212,7 @@ func c20render(p c20prog) (src string, entry string, want []c20frame) {
 				emit("\t" + s)
 			}
 			if f.expr == "" {
-				faultLine = emit("\t" + f.stmt)
+				faultLine = emit("\t"+f.stmt) - strings.Count(f.stmt, "\n") + f.off
 				emit("\treturn x")
 			} else {
 				h := c20hosts[p.Host]
